@@ -1455,9 +1455,11 @@ class WCS(GWCSAPIMixin):
 
         all_spatial = all([t.lower() == "spatial" for t in self.output_frame.axes_type])
 
-        if all_spatial:
+        if all_spatial and len(bb) == 2:
             vertices = _order_clockwise(bb)
         else:
+            # (also an all-spatial output of one, or of more than two, pixel axes:
+            # "clockwise" is a notion of the plane)
             vertices = np.array(list(itertools.product(*bb))).T
 
         if center:
